@@ -216,10 +216,18 @@ func canonMix(ops []string) []string {
 	for i, o := range opNames {
 		idx[o] = i
 	}
-	out := append([]string{}, ops...)
+	var out, dirs []string
+	for _, o := range ops {
+		if strings.HasPrefix(o, "@") { // harness directives stay in front
+			dirs = append(dirs, o)
+		} else {
+			out = append(out, o)
+		}
+	}
+	sort.Strings(dirs)
 	sort.SliceStable(out, func(i, j int) bool { return idx[out[i]] < idx[out[j]] })
 	// at most two goroutines per operation
-	var res []string
+	res := dirs
 	cnt := map[string]int{}
 	for _, o := range out {
 		if cnt[o] < 2 {
@@ -335,7 +343,7 @@ func consequence(k string, exp map[string]bool) string {
 // runMix runs one mix in a child process and returns the observation.
 func (p *parent) runMix(ops []string, seed uint64, verbose bool) string {
 	for _, o := range ops {
-		if !isRunnable(o) {
+		if !isRunnable(o) && !strings.HasPrefix(o, "@") {
 			return "badargs"
 		}
 	}
